@@ -189,6 +189,22 @@ Transform1(a, g) ==
    CASE a.kind = "V" -> Void
      [] a.kind \in {"E", "K"} -> [a EXCEPT !.data = TransformTensor(g, a.data, a.rank, a.tTR, a.tInv)]
      [] a.kind = "X" -> a
+(* a.mul_array(v, axes=ax) with a one-dimensional integer array v: every entry is multiplied by v[index along the axis].
+   ax is the 1-based axis of one k-point's (K) / of the whole (E) array: E: energy axes first, then the tensor axes;
+   K: the band axis first (the code shifts the axes by one because axis 0 of the data is k), then the tensor axes.
+   Chunk-wise for K (chunks kept).  ResultDict has no mul_array. *)
+ArrShape(a) == IF a.kind = "E" THEN a.shape \o [j \in 1..a.rank |-> 3] ELSE <<a.nb>> \o [j \in 1..a.rank |-> 3]
+ArrAxes(a) == IF a.kind \in {"E", "K"} THEN 1..Len(ArrShape(a)) ELSE {}
+MulArrayDefined(a, v, ax) == a.kind \in {"E", "K"} /\ ax \in ArrAxes(a) /\ Len(v) = ArrShape(a)[ax]
+MulArray1(a, v, ax) ==
+   LET fs == IF a.kind = "E" THEN ArrShape(a) ELSE <<SumSeq(a.chunks)>> \o ArrShape(a)
+       fa == IF a.kind = "E" THEN ax ELSE ax + 1
+       st == ProdSeq(SubSeq(fs, fa + 1, Len(fs)))
+   IN [a EXCEPT !.data = Eager([p \in 1..Len(a.data) |-> CScale(v[(((p - 1) \div st) % fs[fa]) + 1], a.data[p])], Len(a.data))]
+(* the integer array used by the MulArray action for an axis of length n: 2, -2, 4, -4, .. *)
+ArrVec(n) == [q \in 1..n |-> IF q % 2 = 1 THEN q + 1 ELSE -q]
+ArrOnes(n) == [q \in 1..n |-> 1]
+
 (* reading .data of a K__Result merges data_list into one array *)
 Touch(a) == IF a.kind = "K" THEN [a EXCEPT !.chunks = <<NK(a)>>] ELSE a
 
@@ -320,15 +336,17 @@ LineBases(fs, a) == {q \in 0..(ProdSeq(fs) - 1) : AxisIndex(fs, a, q) = 0}
 RAddV(x, y) == Eager([p \in 1..Len(x) |-> RAdd(x[p], y[p])], Len(x))
 RScaleV(s, x) == Eager([p \in 1..Len(x) |-> RScale(s, x[p])], Len(x))
 
-(* get_smoother(energy, smear, mode) : which class comes back.  hasE: energy is not None; ne = len(energy);
-   smear in {"none", "nonpos", "pos"}; mode in {"None", "Fermi-Dirac", "Gaussian", other} *)
-GetSmootherKind(hasE, ne, smear, mode) ==
-   IF ~hasE THEN "VoidSmoother"
-   ELSE IF smear \in {"none", "nonpos"} THEN "VoidSmoother"
-   ELSE IF ne <= 1 THEN "VoidSmoother"
-   ELSE IF mode = "Fermi-Dirac" THEN "FermiDiracSmoother"
-   ELSE IF mode = "Gaussian" THEN "GaussianSmoother"
-   ELSE "ValueError"
+(* get_smoother(energy, smear, mode) for the documented modes "Fermi-Dirac" / "Gaussian": how the returned smoother has
+   to ACT (no class names, no exception classes, no order of the argument checks).  hasE: energy is not None;
+   ne = len(energy); smear in {"none", "nonpos", "pos"}; wide: the smearing is so large that the kernel certainly spans
+   several grid steps.  Energy grids are ascending (named predicate; a descending grid is outside the specified
+   domain, the harness reports what happens as an observation). *)
+Ascending(dEsign) == dEsign > 0
+SmootherIsVoidCase(hasE, ne, smear) == ~hasE \/ smear \in {"none", "nonpos"} \/ ne <= 1
+(* got in {"identity", "smoothing", "raises"} : observed on one-hot arrays *)
+GetSmootherActsOK(hasE, ne, smear, wide, got) ==
+   IF SmootherIsVoidCase(hasE, ne, smear) THEN got = "identity"
+   ELSE IF wide THEN got = "smoothing" ELSE got \in {"identity", "smoothing"}
 -----------------------------------------------------------------------------
 (* C16 state machine: a store of result objects evolving by the operators the classes define.
    store : sequence of objects (a new object is appended by every operator that constructs one; add() changes its
@@ -352,7 +370,8 @@ N == Len(store)
 Idx == 1..N
 Obj(i) == store[i]
 SymNames == ActSyms
-Ev(op, i, j, s, g, out) == [op |-> op, i |-> i, j |-> j, s |-> s, g |-> g, out |-> out]
+EvV(op, i, j, s, g, out, v) == [op |-> op, i |-> i, j |-> j, s |-> s, g |-> g, out |-> out, v |-> v]
+Ev(op, i, j, s, g, out) == EvV(op, i, j, s, g, out, <<>>)
 More == Len(hist) < MaxOps
 
 Init == start \in DOMAIN InitStores /\ store = InitStores[start] /\ files = <<>> /\ hist = <<>>
@@ -378,6 +397,20 @@ DoAddVoidLeft(i) == /\ More /\ SameVector(Add(Void, Obj(i)), Obj(i))
                     /\ hist' = Append(hist, Ev("AddVoidLeft", i, 0, 0, "", 0)) /\ UNCHANGED <<start, store, files>>
 DoSubVoidRight(i) == /\ More /\ SameVector(Sub(Obj(i), Void), Obj(i))
                      /\ hist' = Append(hist, Ev("SubVoidRight", i, 0, 0, "", 0)) /\ UNCHANGED <<start, store, files>>
+(* 0 (as in sum([..])) on the left and None on the right are neutral like VoidResult; a VoidResult itself is left out
+   (named predicate: VoidResult() + 0 hands back the 0) *)
+ZeroNeutralDefined(a) == a.kind # "V"
+DoAddZeroLeft(i) == /\ More /\ ZeroNeutralDefined(Obj(i)) /\ SameVector(Add(Void, Obj(i)), Obj(i))
+                    /\ hist' = Append(hist, Ev("AddZeroLeft", i, 0, 0, "", 0)) /\ UNCHANGED <<start, store, files>>
+DoAddNoneRight(i) == /\ More /\ ZeroNeutralDefined(Obj(i)) /\ SameVector(Add(Obj(i), Void), Obj(i))
+                     /\ hist' = Append(hist, Ev("AddNoneRight", i, 0, 0, "", 0)) /\ UNCHANGED <<start, store, files>>
+(* a.mul_array(ArrVec(n), axes=ax - 1) on the first and on the last axis *)
+MulArrayAxes(a) == IF a.kind \in {"E", "K"} THEN {1, Len(ArrShape(a))} ELSE {}
+DoMulArray(i, ax) == /\ More /\ ax \in MulArrayAxes(Obj(i))
+                     /\ LET v == ArrVec(ArrShape(Obj(i))[ax]) IN
+                        /\ store' = Append(store, MulArray1(Obj(i), v, ax))
+                        /\ hist' = Append(hist, EvV("MulArray", i, 0, ax, "", N + 1, v))
+                     /\ UNCHANGED <<start, files>>
 DoSubVoidLeft(i) == /\ More /\ store' = Append(store, Sub(Void, Obj(i)))
                     /\ hist' = Append(hist, Ev("SubVoidLeft", i, 0, 0, "", N + 1)) /\ UNCHANGED <<start, files>>
 DoTransform(i, g) == /\ More /\ TransformDefined(Obj(i), Syms[g])
@@ -400,6 +433,9 @@ Next == \/ \E i, j \in Idx : DoAdd(i, j)
         \/ \E i \in Idx : DoAddVoidLeft(i)
         \/ \E i \in Idx : DoSubVoidRight(i)
         \/ \E i \in Idx : DoSubVoidLeft(i)
+        \/ \E i \in Idx : DoAddZeroLeft(i)
+        \/ \E i \in Idx : DoAddNoneRight(i)
+        \/ \E i \in Idx, ax \in 1..5 : DoMulArray(i, ax)
         \/ \E i \in Idx, g \in SymNames : DoTransform(i, g)
         \/ \E i \in Idx : DoSave(i)
         \/ \E f \in 1..Len(files) : DoLoad(f)
@@ -461,6 +497,13 @@ LawVoidNeutral == /\ \A i \in FreshIdx : LET a == Obj(i) IN
                         /\ \A s \in Scalars : Mul(Void, s) = Void
                         /\ \A s \in Divisors : Div(Void, s) = Void
                         /\ \A g \in LawSyms : Transform(Void, Syms[g]) = Void)
+(* mul_array: ones are neutral, it commutes with scaling, is additive, and two arrays along one axis multiply *)
+LawMulArray == \A i \in FreshIdx : LET a == Obj(i) IN \A ax \in MulArrayAxes(a) :
+   LET n == ArrShape(a)[ax]  v == ArrVec(n) IN
+   /\ MulArray1(a, ArrOnes(n), ax) = a
+   /\ MulArray1(Mul1(a, 2), v, ax) = Mul1(MulArray1(a, v, ax), 2)
+   /\ MulArray1(MulArray1(a, v, ax), v, ax) = MulArray1(a, [q \in 1..n |-> v[q] * v[q]], ax)
+   /\ \A j \in Idx : EFit(a, Obj(j)) => MulArray1(Add1(a, Obj(j)), v, ax).data = DAddV(MulArray1(a, v, ax).data, MulArray1(Obj(j), v, ax).data)
 RECURSIVE TransformTimes(_, _, _)
 TransformTimes(a, g, n) == IF n = 0 THEN a ELSE TransformTimes(Transform(a, g), g, n - 1)
 LawTransformLinear == \A g \in LawSyms :
